@@ -8,9 +8,9 @@ git diff -- django_evolution > /tmp/mut/$NAME.diff
 echo "== diff lines: $(wc -l < /tmp/mut/$NAME.diff)"
 echo "== suite with change"; /venv/bin/python -m pytest -q -p no:cacheprovider --timeout=900 2>&1 | grep -E "passed|failed" 
 echo "== demo with change"; timeout 300 /venv/bin/python demo.py > /tmp/mut/$NAME.with.log 2>&1; echo "exit $?"; tail -2 /tmp/mut/$NAME.with.log
-git stash -q -- django_evolution
+git apply -R /tmp/mut/$NAME.diff   # (git stash is shared between worktrees: not used)
 echo "== demo without change"; timeout 300 /venv/bin/python demo.py > /tmp/mut/$NAME.without.log 2>&1; echo "exit $?"; tail -2 /tmp/mut/$NAME.without.log
-git stash pop -q
+git apply /tmp/mut/$NAME.diff
 cd /verif
 for c in $CHECKS; do
   echo "== check $c against mutant"
